@@ -688,3 +688,8 @@ extend('C19', 'Round 7: _add_client is never deferred (spawn_later / '
        'dropped its connection.')
 extend('C20', 'Round 7: flatten() writes headers with the BytesGenerator '
        'on every path; the header block is parsed with headersonly.')
+
+# rules added in round 8 (DESIGN.md §4 fifth table, §10 Round 8)
+extend('C11', 'Round 8: MxRecord.get reaches its permanent "no records" '
+       'verdict only after a lookup of its own returned, or with records '
+       'that are not expired.')
